@@ -385,7 +385,7 @@ func runProperty(prop string, tier string, seed int, only string) (*runResult, e
 					fr.Unsupported = append(fr.Unsupported, u)
 				}
 			}
-			en := c.runHoudini(ftmo, seed)
+			en := c.runHoudini(min(ftmo, 3), seed)
 			fr.Candidates += len(c.houdini)
 			for _, cd := range c.houdini {
 				if cd.alive {
